@@ -217,8 +217,12 @@ PROPS = {
                        "IPv4 and IPv6 target comes back with the same identifier and socket address; missing address, bad host and port > 65535 are errors. "
                        "Metadata: the two `iter().map(..).collect()` chains are written out as the loops FromIterator runs (R32) over a model of HashMap<String,String> "
                        "(finite map; iter() yields every entry once in some order; collecting inserts in order) and verified with loop invariants: the wire entries denote "
-                       "exactly the target's map, and the map built from wire entries is entries_map(entries); the round trip preserves the map.",
-        "not_covered": ["the SelectRequest / StatusRequest assembly in strategy_adapter.rs / status_adapter.rs and the tonic transport",
+                       "exactly the target's map, and the map built from wire entries is entries_map(entries); the round trip preserves the map. "
+                       "GrpcStrategyAdapter::select and GrpcDiscoveryAdapter::discover are extracted whole: the remote services are deterministic uninterpreted functions of the "
+                       "*content* of the request; select's postconditions are stated for the request the caller's arguments denote (expected_select_request), so they are only "
+                       "provable if the request actually sent is that one (clause request_is_the_callers_arguments: client/server address, protocol, name, uuid text and every "
+                       "candidate in order), and the pick / every discovered target comes back through the verified conversion or is an error.",
+        "not_covered": ["status_adapter.rs (StatusRequest assembly, ServerStatus conversion) and the tonic transport / prost encoding",
                         "that the prost-generated structs match adapter.proto (mirrored by hand in the prelude)"],
         "assumptions": ["std: IpAddr::from_str(ip.to_string()) == Ok(ip); IpAddr::from_str / u16::try_from reject everything else as specified",
                         "HashMap<String,String> behaves like the finite-map model of units/U10/prelude.rs (iteration visits each entry once; FromIterator inserts in order)"],
